@@ -191,8 +191,8 @@ impl FilenameCompleter {
                     )
                 }
             } else {
-                let (start, path) = extract_word(line, pos, ESCAPE_CHAR, self.break_chars);
-                let path = unescape(path, ESCAPE_CHAR);
+                let start = bare_word_start(&line[..pos], self.break_chars);
+                let path = unescape(&line[start..pos], ESCAPE_CHAR);
                 (start, path, ESCAPE_CHAR, self.break_chars, Quote::None)
             };
         let matches = filename_complete(&path, esc_char, break_chars, quote);
@@ -503,6 +503,57 @@ fn find_unclosed_quote(s: &str) -> Option<(usize, Quote)> {
         return Some((quote_index, Quote::Single));
     }
     None
+}
+
+/// Start of the bare word at the end of `s`, when `find_unclosed_quote(s)` is `None`:
+/// the end of the last break char which is neither escaped nor quoted,
+/// with the same reading of quotes and escapes as `find_unclosed_quote`
+/// (`extract_word` scans backward and cannot tell that a `\\` is inside single quotes).
+fn bare_word_start(s: &str, is_break_char: fn(char) -> bool) -> usize {
+    let mut mode = ScanMode::Normal;
+    let mut start = 0;
+    for (index, char) in s.char_indices() {
+        // can `char` end a word ? (read outside quotes and not escaped, or closing a quote)
+        let mut may_break = false;
+        match mode {
+            ScanMode::DoubleQuote => {
+                if char == '"' {
+                    mode = ScanMode::Normal;
+                    may_break = true;
+                } else if char == '\\' {
+                    mode = ScanMode::EscapeInDoubleQuote;
+                }
+            }
+            ScanMode::Escape => {
+                mode = ScanMode::Normal;
+            }
+            ScanMode::EscapeInDoubleQuote => {
+                mode = ScanMode::DoubleQuote;
+            }
+            ScanMode::Normal => {
+                if char == '\\' && cfg!(not(windows)) {
+                    mode = ScanMode::Escape;
+                } else {
+                    if char == '"' {
+                        mode = ScanMode::DoubleQuote;
+                    } else if char == '\'' && cfg!(not(windows)) {
+                        mode = ScanMode::SingleQuote;
+                    }
+                    may_break = true;
+                }
+            }
+            ScanMode::SingleQuote => {
+                if char == '\'' {
+                    mode = ScanMode::Normal;
+                    may_break = true;
+                } // no escape in single quotes
+            }
+        };
+        if may_break && is_break_char(char) {
+            start = index + char.len_utf8();
+        }
+    }
+    start
 }
 
 #[cfg(test)]
